@@ -18,7 +18,8 @@ Section Facts.
     | AExp e => wfe e
     | AExps l => forallb wfe l
     | AExpss l => forallb (forallb wfe) l
-    | AStr _ | AStrs _ | AMap _ => true
+    | AStr _ | AStrs _ | AMap _ | AAny _ | AAnys _ | ABool _ | AInt _ => true
+    | AWith ws => forallb (withq_b V wfe) ws
     end.
 
   (* the argument of InsertBuilder.Query is a SelectExp: only select builders implement it *)
@@ -209,12 +210,97 @@ Section Facts.
   Theorem entry_wfe name args r : forallb aarg_wfe args = true -> entry name args = Some r -> wfe r = true.
   Proof.
     unfold entry. intros Ha H. destruct (String.eqb name "Select").
-    - eapply api_wfe; [exact empty_select_ok|exact Ha| |exact H]. intro E. vm_compute in E. discriminate.
-    - destruct args as [|[t| | | | |] [|? ?]]; try discriminate. cbn [forallb aarg_wfe] in Ha. rewrite andb_true_r in Ha.
-      destruct (String.eqb name "InsertInto"); [injection H as <-; rewrite wfe_insert; unf2; cbn; now rewrite Ha|].
-      destruct (String.eqb name "Update"); [injection H as <-; rewrite wfe_update; unf2; cbn; now rewrite Ha|].
-      destruct (String.eqb name "DeleteFrom"); [injection H as <-; rewrite wfe_delete; unf2; cbn; now rewrite Ha|].
-      discriminate.
+    { eapply api_wfe; [exact empty_select_ok|exact Ha| |exact H]. intro E. vm_compute in E. discriminate. }
+    destruct (String.eqb name "SelectJson").
+    { destruct args as [|[t| | | | | | | | | |] [|? ?]]; try discriminate. cbn [forallb aarg_wfe] in Ha. rewrite andb_true_r in Ha.
+      injection H as <-. rewrite wfe_select. unf. cbn [forallb andb is_nil orb]. rewrite Ha. reflexivity. }
+    destruct args as [|[t| | | | | | | | | |] [|? ?]]; try discriminate. cbn [forallb aarg_wfe] in Ha. rewrite andb_true_r in Ha.
+    destruct (String.eqb name "InsertInto"); [injection H as <-; rewrite wfe_insert; unf2; cbn; now rewrite Ha|].
+    destruct (String.eqb name "Update"); [injection H as <-; rewrite wfe_update; unf2; cbn; now rewrite Ha|].
+    destruct (String.eqb name "DeleteFrom"); [injection H as <-; rewrite wfe_delete; unf2; cbn; now rewrite Ha|].
+    discriminate.
+  Qed.
+
+  (* ---------------------------------------------------------------- the WITH builders *)
+  Definition withq_rest (q : withq exp) : bool := optb (fun s => forallb wfe (ws_by s)) (wq_search q).
+  (* a list under construction: all queries but the last have their statement *)
+  Definition wr_ok (r : wrecv V) : bool :=
+    match r with
+    | WB ws => forallb (withq_b V wfe) ws
+    | WWB ws => forallb (withq_b V wfe) (removelast ws) && forallb withq_rest ws
+    | WSB ws _ => forallb (withq_b V wfe) ws
+    | WSBB ws _ by_ => forallb (withq_b V wfe) ws && forallb wfe by_
+    end.
+  Definition res_ok (r : ares V) : bool := match r with RExp e => wfe e | RWith w => wr_ok w end.
+
+  Lemma upd_last_split {A} (g : A -> A) (l l' : list A) :
+    upd_last g l = Some l' -> exists init x, l = init ++ [x] /\ l' = init ++ [g x].
+  Proof.
+    revert l'. induction l as [|y r IH]; intros l' H; [discriminate|].
+    destruct r as [|z r].
+    - cbn in H. injection H as <-. exists [], y. split; reflexivity.
+    - change (upd_last g (y :: z :: r)) with (option_map (cons y) (upd_last g (z :: r))) in H.
+      destruct (upd_last g (z :: r)) as [r'|] eqn:E; [|discriminate]. injection H as <-.
+      destruct (IH r' eq_refl) as [init [x [E1 E2]]]. exists (y :: init), x. rewrite E1, E2. split; reflexivity.
+  Qed.
+
+  Lemma withq_b_rest q : withq_b V wfe q = true -> withq_rest q = true.
+  Proof. unfold withq_b, withq_rest. intro H. apply andb_true_iff in H. tauto. Qed.
+
+  Lemma forallb_impl {A} (f g : A -> bool) l : (forall x, f x = true -> g x = true) -> forallb f l = true -> forallb g l = true.
+  Proof. intros H. induction l as [|x r IH]; cbn; [reflexivity|]. intro K. apply andb_true_iff in K. destruct K as [K1 K2].
+         rewrite (H x K1), (IH K2). reflexivity. Qed.
+
+  Definition HW_ok (kh : string * (list (aarg V) -> option (ares V))) : Prop :=
+    forall args res, forallb aarg_wfe args = true -> snd kh args = Some res -> res_ok res = true.
+
+  Lemma with_handlers_ok r : wr_ok r = true -> Forall HW_ok (with_handlers V r).
+  Proof.
+    intro Hr. destruct r as [ws|ws|ws ty|ws ty by_]; cbn [with_handlers wr_ok] in *.
+    all: repeat (apply Forall_cons; [|]); try apply Forall_nil.
+    all: intros args res Ha Hh; cbn [fst snd] in Hh; args_cases Hh.
+    all: cbn [forallb aarg_wfe] in Ha; rewrite ?andb_true_r in Ha.
+    all: try (unfold opt_bind in Hh;
+              match type of Hh with match ?u with _ => _ end = Some _ => destruct u eqn:Eu; [|discriminate Hh] end).
+    all: injection Hh as <-; cbn [res_ok wr_ok].
+    all: try (apply upd_last_split in Eu; destruct Eu as [init [x [-> ->]]]; rewrite ?removelast_last in *).
+    all: splitb.
+    all: rewrite ?removelast_last, ?forallb_app in *; cbn [forallb] in *; splitb; rewrite ?andb_true_r in *.
+    all: try assumption; try reflexivity.
+    all: try (eapply forallb_impl; [exact withq_b_rest|assumption]).
+    all: try (rewrite ?wfe_select, ?wfe_insert, ?wfe_update, ?wfe_delete; unf; unf2; cbn [forallb andb is_nil orb];
+              rewrite ?forallb_map; cbn [fst]; splitb; rewrite ?andb_true_r; repeat (apply andb_true_iff; split);
+              try assumption; try reflexivity).
+    all: try (unfold withq_b, withq_rest, wq_set_query, wq_set_cols, wq_set_search, optb in *;
+              cbn [wq_query wq_search ws_by] in *; splitb; try assumption; try reflexivity).
+  Qed.
+
+  Theorem api_with_ok m r args res :
+    wr_ok r = true -> forallb aarg_wfe args = true -> api_with m r args = Some res -> res_ok res = true.
+  Proof.
+    intros Hr Ha H. unfold api_with in H. destruct (find _ (with_handlers V r)) as [kh|] eqn:E; [|discriminate].
+    apply find_some in E. destruct E as [Hin _].
+    pose proof (with_handlers_ok r Hr) as Hf. rewrite Forall_forall in Hf. exact (Hf kh Hin args res Ha H).
+  Qed.
+
+  Theorem entry_with_ok name args w : entry_with name args = Some w -> wr_ok w = true.
+  Proof.
+    unfold entry_with. intro H. destruct args as [|[| n | | | | | | | | |] [|? ?]]; try discriminate.
+    destruct (String.eqb name "With"); [injection H as <-; reflexivity|].
+    destruct (String.eqb name "WithRecursive"); [injection H as <-; reflexivity|discriminate].
+  Qed.
+
+  (* the states of a WITH clause under construction reachable from With / WithRecursive *)
+  Inductive reachable_w : wrecv V -> Prop :=
+  | rw_entry name args w : entry_with name args = Some w -> reachable_w w
+  | rw_step meth r args w :
+      reachable_w r -> forallb aarg_wfe args = true -> api_with meth r args = Some (RWith w) -> reachable_w w.
+
+  Theorem reachable_w_ok w : reachable_w w -> wr_ok w = true.
+  Proof.
+    induction 1 as [name args w He|meth r args w _ IH Ha Hs].
+    - exact (entry_with_ok name args w He).
+    - exact (api_with_ok meth r args (RWith w) IH Ha Hs).
   Qed.
 
   (* a statement value obtained from an entry point by any number of modelled builder calls, the expressions
@@ -222,14 +308,17 @@ Section Facts.
      select builder (the only implementation of its parameter type) *)
   Inductive reachable : exp -> Prop :=
   | reach_entry name args r : forallb aarg_wfe args = true -> entry name args = Some r -> reachable r
+  | reach_with meth w args r :
+      reachable_w w -> forallb aarg_wfe args = true -> api_with meth w args = Some (RExp r) -> reachable r
   | reach_step rtype meth recv args r :
       reachable recv -> forallb aarg_wfe args = true -> query_ok (mkey rtype meth) args ->
       api rtype meth recv args = Some r -> reachable r.
 
   Theorem reachable_wfe e : reachable e -> wfe e = true.
   Proof.
-    induction 1 as [name args r Ha He|rtype meth recv args r _ IH Ha Hq Hs].
+    induction 1 as [name args r Ha He|meth w args r Hw Ha Hs|rtype meth recv args r _ IH Ha Hq Hs].
     - exact (entry_wfe name args r Ha He).
+    - exact (api_with_ok meth w args (RExp r) (reachable_w_ok w Hw) Ha Hs).
     - exact (api_wfe rtype meth recv args r IH Ha Hq Hs).
   Qed.
 
